@@ -193,45 +193,34 @@ theorem c05_regex_text (p : Bytes) (mc : Bool) (u sc : Bytes) (hre : UF.isRegexP
     hasSub (toLower u) (loadShortcut sc) = true := by
   rcases loadShortcut_cases sc with h0 | h0 <;> rw [h0]
   · exact hasSub_nil _
-  · unfold modelRegexpShortcut at hsc
-    simp only at hsc
-    split at hsc
-    · cases hsc
-    · split at hsc
-      · cases hsc; exact hasSub_nil _
-      · rename_i hq
-        cases hp : parseCore ((p.drop 1).dropLast) with
-        | none => rw [hp] at hsc; cases hsc
-        | some tree =>
-          rw [hp] at hsc
-          simp only [Option.some.injEq] at hsc
-          rcases pickLongest_sound (regexParts ((p.drop 1).dropLast)) (goReq tree) with he | ⟨l, hl, hsub⟩
-          · rw [← hsc, he]; exact hasSub_nil _
-          · rw [hsc] at hsub
-            obtain ⟨r0, hparse, hs, _⟩ := modelPat_regex_some hre h
-            have hnoci : hasPrefix ((p.drop 1).dropLast) ciPrefix = false := by
-              cases hc : hasPrefix ((p.drop 1).dropLast) ciPrefix with
-              | false => rfl
-              | true =>
-                exfalso
-                obtain ⟨z, hz⟩ := (hasPrefix_iff _ _).1 hc
-                apply hq
-                rw [hz]
-                simp [ciPrefix]
-            have hrel : FoldRel tree r0 := by
-              unfold regexRuleText at hparse
-              cases mc with
-              | false =>
-                simp only [Bool.false_eq_true, if_false, parseRE_ci, hp, Option.map_some,
-                  Option.some.injEq] at hparse
-                rw [← hparse]; exact FoldRel.foldCase tree
-              | true =>
-                -- `$match-case`: the compiled expression is Go's tree of the text, the textbook
-                -- tree up to the fold flags `parser.factor` mixes up (group P3)
-                simp only [if_true, parseRE, hnoci, Bool.false_eq_true, if_false, hp,
-                  Option.bind_some] at hparse
-                exact FoldRel.goTree hparse
-            exact hasSub_trans (goReq_search hrel hs.symm l hl) hsub
+  · rcases modelRegexpShortcut_some hsc with rfl | ⟨hq, tree, hp, hsc⟩
+    · exact hasSub_nil _
+    · rcases pickLongest_sound (regexParts ((p.drop 1).dropLast)) (goReq tree) with he | ⟨l, hl, hsub⟩
+      · rw [hsc, he]; exact hasSub_nil _
+      · rw [← hsc] at hsub
+        obtain ⟨r0, hparse, hs, _⟩ := modelPat_regex_some hre h
+        have hnoci : hasPrefix ((p.drop 1).dropLast) ciPrefix = false := by
+          cases hc : hasPrefix ((p.drop 1).dropLast) ciPrefix with
+          | false => rfl
+          | true =>
+            exfalso
+            obtain ⟨z, hz⟩ := (hasPrefix_iff _ _).1 hc
+            rw [hz] at hq
+            simp [ciPrefix] at hq
+        have hrel : FoldRel tree r0 := by
+          unfold regexRuleText at hparse
+          cases mc with
+          | false =>
+            simp only [Bool.false_eq_true, if_false, parseRE_ci, hp, Option.map_some,
+              Option.some.injEq] at hparse
+            rw [← hparse]; exact FoldRel.foldCase tree
+          | true =>
+            -- `$match-case`: the compiled expression is Go's tree of the text, the textbook
+            -- tree up to the fold flags `parser.factor` mixes up (group P3)
+            simp only [if_true, parseRE, hnoci, Bool.false_eq_true, if_false, hp,
+              Option.bind_some] at hparse
+            exact FoldRel.goTree hparse
+        exact hasSub_trans (goReq_search hrel hs.symm l hl) hsub
 
 /-- C05 from the rule TEXT for `/regex/` rules over the complete model (`parseNetRuleM`: no oracle but
     `netip`): whenever the shortcut model answers for the rule's pattern, `Match` is unchanged when the
